@@ -117,6 +117,9 @@ type Engine struct {
 	initDone    map[*ssa.Package]bool
 	initHeap    map[int]Value
 	assumptions map[string]bool
+	diskLog     []string
+	readLog     []string
+	handles     map[int]*fileHandle
 }
 
 func (e *Engine) site(instr ssa.Instruction) string {
